@@ -76,6 +76,7 @@ type timer struct {
 type Options struct {
 	Horizon     int  // max scheduling steps per execution (0 = 20000)
 	EarlyTimers bool // offer "fire the earliest timer now" as a deviation at scheduling points
+	MaxVirtual  stime.Duration // virtual time after which blocked required threads are declared deadlocked (0 = 1h)
 }
 
 // Exec is one execution of a harness body under the scheduler.
@@ -187,6 +188,9 @@ func OnCleanup(f func()) {
 func newExec(prefix []int, o Options) *Exec {
 	if o.Horizon == 0 {
 		o.Horizon = 20000
+	}
+	if o.MaxVirtual == 0 {
+		o.MaxVirtual = stime.Hour
 	}
 	gen++
 	return &Exec{Opts: o, prefix: prefix, doneCh: make(chan struct{}, 1), ackCh: make(chan struct{}, 1), Gen: gen, traceH: 1469598103934665603}
@@ -382,7 +386,7 @@ func (x *Exec) schedule(self *Thread) {
 		if len(en) == 0 && len(yl) > 0 {
 			// only polite waiters are runnable: if a timer is pending let time pass first
 			// (a spinner waiting for a timer-driven event), otherwise run them.
-			if x.fireNextTimer() {
+			if x.now < int64(x.Opts.MaxVirtual) && x.fireNextTimer() {
 				continue
 			}
 			en = yl
@@ -395,7 +399,15 @@ func (x *Exec) schedule(self *Thread) {
 			sort.SliceStable(en[btoi(selfEnabled):], func(i, j int) bool { return en[btoi(selfEnabled)+i].ID < en[btoi(selfEnabled)+j].ID })
 		}
 		if len(en) == 0 {
-			if x.fireNextTimer() {
+			// Time only passes on behalf of unfinished required threads: periodic
+			// timers (keep-alive pings, tickers) must not keep a finished scenario alive.
+			waiting := false
+			for _, t := range x.threads {
+				if !t.done && t.Required {
+					waiting = true
+				}
+			}
+			if waiting && x.now < int64(x.Opts.MaxVirtual) && x.fireNextTimer() {
 				continue
 			}
 			st := Quiescent
@@ -633,6 +645,11 @@ func Sleep(d stime.Duration) {
 type Budget struct {
 	MaxPreempt int
 	MaxDev     int
+	// MaxDelay bounds the number of non-default choices at non-preemptive
+	// switch points (the running thread blocked, finished or yielded): the
+	// default there is the lowest-numbered enabled thread. -1 = unlimited
+	// (all orders explored, CHESS style); 0 is NOT the zero value's meaning: use NoDelayBound.
+	MaxDelay int
 	MaxExecs   int64 // 0 = unlimited
 }
 
@@ -652,6 +669,7 @@ type Stats struct {
 type task struct {
 	prefix  []int
 	pre, dv int
+	dl      int
 	depth   int // number of non-default choices
 }
 
@@ -739,25 +757,27 @@ func (e *Explorer) Explore() *Stats {
 				}
 			}
 			// children
-			pre, dv := tk.pre, tk.dv
+			pre, dv, dl := tk.pre, tk.dv, tk.dl
 			for i := len(tk.prefix); i < len(x.Points); i++ {
 				p := x.Points[i]
 				for alt := 1; alt < p.N; alt++ {
-					cp, cd := pre, dv
+					cp, cd, cl := pre, dv, dl
 					switch p.Kind {
 					case KSched:
 						if alt == p.TimerAlt {
 							cd++
 						} else if p.Preempt {
 							cp++
+						} else {
+							cl++
 						}
 					case KDev:
 						cd++
 					}
-					if cp > e.Budget.MaxPreempt || cd > e.Budget.MaxDev {
+					if cp > e.Budget.MaxPreempt || cd > e.Budget.MaxDev || (e.Budget.MaxDelay >= 0 && cl > e.Budget.MaxDelay) {
 						continue
 					}
-					child := task{pre: cp, dv: cd, depth: tk.depth + 1}
+					child := task{pre: cp, dv: cd, dl: cl, depth: tk.depth + 1}
 					if child.depth == e.ShardDepth {
 						mine := counter%e.NShards == e.Shard
 						counter++
@@ -797,7 +817,11 @@ func FormatChoices(x *Exec) []int {
 // Describe summarises threads (for deadlock reports).
 func (x *Exec) Describe() string {
 	var b strings.Builder
-	for _, t := range x.threads {
+	for i, t := range x.threads {
+		if i >= 12 {
+			fmt.Fprintf(&b, "... (%d threads)", len(x.threads))
+			break
+		}
 		fmt.Fprintf(&b, "%s(done=%v,at=%s,steps=%d) ", t.Name, t.done, t.kind, t.steps)
 	}
 	return b.String()
